@@ -388,7 +388,7 @@ def _extract_patches():
     )
 
 
-def body_extract(ctx, nreq, policy, conv, blank=False):
+def body_extract(ctx, nreq, policy, conv, blank=False, pdim=None):
     """emsarray extract-points == extract_dataframe for every vector of per-row outcomes (hit cell n / miss); under
     'error' any miss ends with a non-zero status, a message naming exactly the missing rows, and no output."""
     import contextlib
@@ -417,6 +417,10 @@ def body_extract(ctx, nreq, policy, conv, blank=False):
     hits = [k for k, o in enumerate(outcomes) if o >= 0]
     ctx.note('rows', dict(outcomes=outcomes, policy=policy))
     argv_tail = ['--missing-points', policy] if policy != 'default' else []
+    if pdim:
+        # the name of the point dimension chosen on the command line
+        argv_tail += (['-d', pdim] if nreq % 2 else ['--point-dimension', pdim])
+    pname = pdim or 'point'
     eff = 'error' if policy == 'default' else policy
 
     def run_main(argv):
@@ -480,7 +484,7 @@ def body_extract(ctx, nreq, policy, conv, blank=False):
         if not hits:
             # nothing to extract: the library refuses (ValueError) and so must the command
             try:
-                point_extraction.extract_dataframe(lib_ds, df, ('lon', 'lat'), point_dimension='point', missing_points=eff)
+                point_extraction.extract_dataframe(lib_ds, df, ('lon', 'lat'), point_dimension=pname, missing_points=eff)
                 lib_fails = False
             except ValueError:
                 lib_fails = True
@@ -490,9 +494,10 @@ def body_extract(ctx, nreq, policy, conv, blank=False):
         ctx.check(status == 0 and out is not None, 'extract-points succeeds when the library call succeeds')
         if out is None:
             return
-        ref = point_extraction.extract_dataframe(lib_ds, df, ('lon', 'lat'), point_dimension='point', missing_points=eff)
+        ref = point_extraction.extract_dataframe(lib_ds, df, ('lon', 'lat'), point_dimension=pname, missing_points=eff)
         ctx.check(set(out.data_vars) == set(ref.data_vars) and dict(out.sizes) == dict(ref.sizes), 'same variables and sizes as extract_dataframe')
-        ctx.check(list(out['point'].values) == list(ref['point'].values), 'same rows, labelled with their original positions')
+        ctx.check(pname in out.dims and pname in out.variables and list(out[pname].values) == list(ref[pname].values),
+                  'same rows, labelled with their original positions, along the point dimension asked for')
         ok = True
         for v in ref.data_vars:
             a, b = numpy.asarray(out[v].values), numpy.asarray(ref[v].values)
@@ -751,6 +756,9 @@ def cases(tier):
             nreq = 2 if (q or policy in ('default',)) else 3
             yield Case(f'extract:{conv}:{policy}:{nreq}', body_extract, dict(nreq=nreq, policy=policy, conv=conv),
                        patches=_extract_patches, max_paths=2000, split=8)
+            if policy in ('drop', 'fill'):
+                yield Case(f'extract:{conv}:{policy}:{nreq}:point-dimension', body_extract, dict(nreq=nreq, policy=policy, conv=conv, pdim='station'),
+                           patches=_extract_patches, max_paths=2000, split=8)
             if conv == 'cf1d' and policy != 'default':
                 yield Case(f'extract:{conv}:{policy}:3:blank-row', body_extract, dict(nreq=3, policy=policy, conv=conv, blank=True),
                            patches=_extract_patches, max_paths=2000, split=8)
